@@ -214,7 +214,7 @@ def metadata_log_ok__samples():
 
 def inv_history(sp, rig="M", L=3, first=None, ops=None):
     with Env(sp, rig=rig, clock="tick") as e:
-        ops = ops or ["append", "append2", "delete", "replace", "expire", "delsnap", "set_retention", "set_logmax", "contended_commit"]
+        ops = ops or ["append", "append2", "delete", "replace", "expire", "delsnap", "set_retention", "set_logmax", "contended_commit", "reappend"]
         h = H.History(sp, e, ops, checks=[H.check_state, H.check_invariant])
         h.ops = ["append2"]
         h.step(-2)
@@ -250,7 +250,7 @@ def obligations(tier):
     for bi, b in enumerate(BOUNDS):
         obs.append(Ob(f"a.metadata_log.bound{bi}", "vf.props.c15:metadata_log_ok", {"BI": bi}, engine="crosshair", timeout=T,
                       bounds=f"metadata-log bound property {b!r}, log of 0..4 entries, retried-commit duplicate or new entry", weight=2))
-    all_ops = ["append", "append2", "delete", "replace", "expire", "delsnap", "set_retention", "set_logmax", "contended_commit"]
+    all_ops = ["append", "append2", "delete", "replace", "expire", "delsnap", "set_retention", "set_logmax", "contended_commit", "reappend"]
     if tier == "quick":
         for f in all_ops:
             obs.append(Ob(f"b.history.M.{f}.L2", "vf.props.c15:inv_history", {"rig": "M", "L": 2, "first": f, "_must_reach": ["ran"], "_sample_every": 25},
